@@ -25,7 +25,9 @@ ALPHA = ["a", "B", "1", "_", "+", "-", "*", "/", ".", "\\", ":", "!", ";", ",", 
          "'", " ", "\n", "\x01", "é"]
 ALPHA_T = ALPHA + [")", "\"", "`", "%", "\t", "€", "#", "^", "0", "z"]
 RULE = ("part 1: every atom of length 0..3 (quick) over the 25-character class alphabet {a B 1 _ + - * / . \\ : ! ; , | [ ] "
-        "{ } ( ' space newline U+0001 e-acute} (thorough: length 0..2 over 35 characters in addition), built with atom_codes/2, "
+        "{ } ( ' space newline U+0001 e-acute} (thorough: length 0..2 over 35 characters in addition), plus 400 atoms made of 16 "
+        "non-ASCII white-space / format / combining / private-use / supplementary-plane characters (alone, doubled, paired, at the "
+        "start, middle and end of an atom), built with atom_codes/2, "
         "x {alone, f(A), [A]} x {writeq, write, write_canonical, write_term quoted}; part 2: every term of the C15 space "
         "x every C15 operator table x {write_canonical, write_term [quoted,ignore_ops]}. Non-trivial: the atom is not a "
         "plain lowercase identifier (part 1); the term contains an operator functor or a list (part 2).")
@@ -47,6 +49,17 @@ def atoms(tier):
     for n in (1, 2, 3):
         for t in itertools.product(ALPHA, repeat=n):
             out.append("".join(t))
+    seen0 = set(out)
+    for a in S.uni_atoms():
+        if a not in seen0:
+            seen0.add(a)
+            out.append(a)
+    for u in S.UNI_CHARS:
+        for v in S.UNI_CHARS[:10]:
+            for a in (u + v, "a" + u + v):
+                if a not in seen0:
+                    seen0.add(a)
+                    out.append(a)
     if tier == "thorough":
         seen = set(out)
         for n in (1, 2):
@@ -221,7 +234,10 @@ def atom_shard(w, k, n, tier, acc):
     for batch in px.chunked(mine, 400):
         obs = run_atoms(w, batch)
         good = [(a, o) for a, o in zip(batch, obs) if isinstance(o, dict)]
-        rbs = dict(zip([a for a, _ in good], readback(w, [a for a, _ in good], [o[("alone", "wq")] for _, o in good])))
+        rbs = {}
+        for wr in ("wq", "wc", "tq"):
+            for (a, _), rb in zip(good, readback(w, [a for a, _ in good], [o[("alone", wr)] for _, o in good])):
+                rbs[(a, wr)] = rb
         for a, o in zip(batch, obs):
             nt = not (a and a[0] in TX.LOWER and all(c in TX.ALNUM for c in a))
             if not isinstance(o, dict):
@@ -237,11 +253,13 @@ def atom_shard(w, k, n, tier, acc):
                         acc.violation("atom %s %s %s %s" % (wr, ctx, vk, atom_sig(a)),
                                       {"kind": "atom", "atom": a, "ctx": ctx, "writer": wr},
                                       expected=expected_text(a, wr), observed=o[(ctx, wr)])
-            rb = rbs.get(a)
-            acc.case(nt, "readback:" + rb)
-            if rb != "ok":
-                acc.violation("atom wq readback_%s %s" % (rb, atom_sig(a)), {"kind": "atom", "atom": a, "ctx": "readback", "writer": "wq"},
-                              expected="text that reads back to the atom", observed=o[("alone", "wq")])
+            for wr in ("wq", "wc", "tq"):
+                rb = rbs.get((a, wr))
+                acc.case(nt, "readback:" + rb)
+                if rb != "ok":
+                    acc.violation("atom %s readback_%s %s" % (wr, rb, atom_sig(a)),
+                                  {"kind": "atom", "atom": a, "ctx": "readback", "writer": wr},
+                                  expected="text that reads back to the atom", observed=o[("alone", wr)])
 
 
 def expected_text(a, wr):
@@ -353,10 +371,11 @@ def recheck(w, case, tier):
         if not isinstance(o, dict):
             return {"sig": "atom abn:%s %s" % (o, atom_sig(a)), "case": case, "expected": "12 texts", "observed": o}
         if case["ctx"] == "readback":
-            rb = readback(w, [a], [o[("alone", "wq")]])[0]
+            wr = case.get("writer", "wq")
+            rb = readback(w, [a], [o[("alone", wr)]])[0]
             if rb != "ok":
-                return {"sig": "atom wq readback_%s %s" % (rb, atom_sig(a)), "case": case,
-                        "expected": "text that reads back to the atom", "observed": o[("alone", "wq")]}
+                return {"sig": "atom %s readback_%s %s" % (wr, rb, atom_sig(a)), "case": case,
+                        "expected": "text that reads back to the atom", "observed": o[("alone", wr)]}
             return None
         ctx, wr = case["ctx"], case["writer"]
         label, vk = judge_atom(a, ctx, wr, o[(ctx, wr)])
